@@ -3,7 +3,7 @@ From Coq Require Import List ZArith Bool Permutation.
 From DD Require Import Model.Circuit Proofs.PassLemmas Proofs.Enum Proofs.Semantics Proofs.DetCert.
 From DD Require Import Model.LexerD4 Model.LoadD4 Spec.D4Sem Proofs.LoadD4Graph Proofs.LoadD4Ops
   Proofs.LoadD4Pass2 Proofs.LoadD4Struct Proofs.LoadD4Pass3 Proofs.LoadD4Sem Proofs.LoadD4Count
-  Proofs.LoadD4Examples.
+  Proofs.LoadD4Examples Spec.D4Conform Proofs.LoadD4WFTop.
 Import ListNotations.
 
 (* The cached root count of every well-formed flattened circuit is the number of rows of the
@@ -74,16 +74,109 @@ Theorem C01_d4_pass2_preserves : forall g root g', Inv g -> pass2 g root = Some 
 Proof. exact pass2_preserves. Qed.
 Print Assumptions C01_d4_pass2_preserves.
 
-Theorem C01_d4_pass3_preserves : forall st root st', tables_ok st -> pass3 true (fun l => l) st root = Some st' ->
+Theorem C01_d4_pass3_preserves : forall st root st', tables_ok nonzero false st -> pass3 true (fun l => l) st root = Some st' ->
   forall s x b, GV (ls_g st) s x b -> GV (ls_g st') s x b.
 Proof. exact pass3_preserves. Qed.
 Print Assumptions C01_d4_pass3_preserves.
 
-(* "every conforming d4 file loads to a WF vector" is NOT proved (smoothness after balancing
-   with node sharing, the determinism certificate surviving the rewrites, reachability).  What
-   holds: if the loaded vector passes the verified checker - which the correspondence run
-   evaluates on every generated and corpus input - then it is WF and its cached root count is the
-   number of satisfying assignments of THE FILE over the loader's feature range 1..n'. *)
+(* ---- every conforming d4 file loads to a well-formed vector ----
+
+   d4_conform toks n (Spec/D4Conform.v, decidable, evaluated by the correspondence runs c01 and
+   ld4 on every generated file) = d4's conventions as local conditions on five certificate
+   tables: edges join declared nodes, no literal 0, heights decrease along edges; t/f nodes have
+   no outgoing edge; an or node is d4's root idiom (one unlabelled edge) or a decision node
+   (every edge labelled, any two edges carry a complementary pair; unlabelled edges into f nodes
+   tolerated, to distinct f nodes); the literals of an edge are over distinct features, none of
+   them mentioned below the target; the edges of an and node are over disjoint features; every
+   mentioned feature is still mentioned below node 1 once the dead branches are gone.
+   The proof goes through check_wf conjunct by conjunct (Proofs/LoadD4WF.v): rebuild is an
+   isomorphism of the graph reachable from the root (nonempty, idx_ok, all_reachable; leaves from
+   the literal table: unique_leaves, lits_nonzero); det_cert, decomposable: invariants of the
+   graph from the line loop on, kept by the three traversals; smooth: every or node the third
+   traversal finishes is smooth and stays so, and the traversal finishes every node the root
+   reaches; complete: the tables D/TR/L of d4_conform read against the second traversal. *)
+Theorem C01_d4_loader_wf : forall toks n C n',
+  d4_conform toks n = true -> load_d4 toks n = Some (C, n') -> check_wf C n' = true.
+Proof. exact load_d4_wf. Qed.
+Print Assumptions C01_d4_loader_wf.
+
+(* hence WF, and the cached root count is the number of satisfying assignments of THE FILE over
+   the loader's feature range 1..n' *)
+Theorem C01_d4_loader_wf_count : forall toks n C n',
+  d4_conform toks n = true -> load_d4 toks n = Some (C, n') ->
+  WF C n' /\ root_count C = Z.of_nat (length (d4_models toks n')).
+Proof. exact load_d4_wf_count. Qed.
+Print Assumptions C01_d4_loader_wf_count.
+
+(* the same for the loader before the C18 repair (any duplicate-free enumeration order of the
+   hash set) and with or without node-index recycling *)
+Theorem C01_d4_loader_wf_any_order : forall (recycle : bool) (ord : list nat -> list nat) toks n C n',
+  (forall l f, In f (ord l) <-> In f l) -> (forall l, NoDup l -> NoDup (ord l)) ->
+  d4_conform toks n = true -> load_d4_gen recycle ord toks n = Some (C, n') -> check_wf C n' = true.
+Proof. exact load_d4_gen_wf_any_order. Qed.
+Print Assumptions C01_d4_loader_wf_any_order.
+
+(* The conditions of d4_conform that the proof uses cannot be dropped: for each one a file that
+   violates (only) it, loads, and fails the named conjunct of check_wf (each file is a hand case
+   of run ld4, so the real loader produces exactly these vectors). *)
+Theorem C01_d4_conform_or_conflict_refuted : exists toks n C n',
+  d4_ok toks /\ or_ok toks 1 = false /\ load_d4 toks n = Some (C, n') /\ det_cert C = false /\
+  check_wf C n' = false /\ root_count C <> Z.of_nat (length (d4_models toks n')).
+Proof. exact conform_or_conflict_refuted. Qed.
+Print Assumptions C01_d4_conform_or_conflict_refuted.
+
+Theorem C01_d4_conform_and_disjoint_refuted : exists toks n C n',
+  d4_ok toks /\ and_ok toks (tabT toks) 1 = false /\ load_d4 toks n = Some (C, n') /\ decomposable C = false /\
+  check_wf C n' = false.
+Proof. exact conform_and_disjoint_refuted. Qed.
+Print Assumptions C01_d4_conform_and_disjoint_refuted.
+
+Theorem C01_d4_conform_edge_target_refuted : exists toks n C n',
+  d4_ok toks /\ edge_ok (tabT toks) ([1]%Z, 2%nat) = false /\ In ([1]%Z, 2%nat) (edges toks 1) /\
+  load_d4 toks n = Some (C, n') /\ decomposable C = false /\ check_wf C n' = false.
+Proof. exact conform_edge_target_refuted. Qed.
+Print Assumptions C01_d4_conform_edge_target_refuted.
+
+Theorem C01_d4_conform_edge_nodup_refuted : exists toks n C n',
+  d4_ok toks /\ edge_ok (tabT toks) ([1; 1]%Z, 2%nat) = false /\ In ([1; 1]%Z, 2%nat) (edges toks 1) /\
+  load_d4 toks n = Some (C, n') /\ decomposable C = false /\ check_wf C n' = false.
+Proof. exact conform_edge_nodup_refuted. Qed.
+Print Assumptions C01_d4_conform_edge_nodup_refuted.
+
+Theorem C01_d4_conform_leaf_edges_refuted : exists toks n C n',
+  d4_ok toks /\ kind toks 2 = Some KTrue /\ edges toks 2 <> [] /\
+  load_d4 toks n = Some (C, n') /\ complete C n' = false /\ check_wf C n' = false /\
+  root_count C <> Z.of_nat (length (d4_models toks n')).
+Proof. exact conform_leaf_edges_refuted. Qed.
+Print Assumptions C01_d4_conform_leaf_edges_refuted.
+
+Theorem C01_d4_conform_mentioned_live_refuted : exists toks n C n',
+  d4_ok toks /\ incln (all_mentioned toks) (get (tabL toks) 1 []) = false /\
+  load_d4 toks n = Some (C, n') /\ complete C n' = false /\ check_wf C n' = false /\
+  root_count C <> Z.of_nat (length (d4_models toks n')).
+Proof. exact conform_mentioned_live_refuted. Qed.
+Print Assumptions C01_d4_conform_mentioned_live_refuted.
+
+(* token level only: the lexer ends an edge line at the first 0 *)
+Theorem C01_d4_conform_literal_zero_refuted : exists toks n C n',
+  forallb (edge_in_range toks) toks = false /\ load_d4 toks n = Some (C, n') /\ lits_nonzero C = false /\
+  check_wf C n' = false.
+Proof. exact conform_literal_zero_refuted. Qed.
+Print Assumptions C01_d4_conform_literal_zero_refuted.
+
+(* d4_conform is sufficient, not necessary: duplicate unlabelled edges into one f node (the proof
+   wants duplicate-free child lists before balancing) and an or node that is deterministic
+   without being a decision node are rejected by d4_conform, and load to vectors that pass
+   check_wf (both are hand cases of run ld4) *)
+Theorem C01_d4_conform_not_necessary :
+  (d4_conform twice_false_file 1 = false /\ exists C, load_d4 twice_false_file 1 = Some (C, 1%nat) /\ check_wf C 1 = true) /\
+  (d4_conform nondecision_file 1 = false /\ exists C, load_d4 nondecision_file 1 = Some (C, 1%nat) /\ check_wf C 1 = true).
+Proof. exact conform_not_necessary. Qed.
+Print Assumptions C01_d4_conform_not_necessary.
+
+(* the per-input form (superseded by C01_d4_loader_wf_count for conforming files; still what the
+   runs use for files outside d4_conform): if the loaded vector passes the verified checker then
+   it is WF and its cached root count is the file's model count over 1..n'. *)
 Theorem C01_d4_loader_wf_partial : forall toks n C n',
   d4_ok toks -> load_d4 toks n = Some (C, n') -> check_wf C n' = true ->
   WF C n' /\ root_count C = Z.of_nat (length (d4_models toks n')).
@@ -135,3 +228,16 @@ Example mixed_d4_loaded :
   (0 < root_count mixed_d4_vector) /\
   eval_d4 mixed_d4 (asg_of [1; 2; -3; -4; -5]) = true /\ eval_d4 mixed_d4 (asg_of [-1; 2; 3; -4; 5]) = false.
 Proof. repeat split; vm_compute; reflexivity. Qed.
+
+(* Non-vacuity of C01_d4_loader_wf: tests/data/small_ex_d4.nnf, the mixed file above (smoothing,
+   free feature, false edge, shared node), d4's tautology idiom, and a file with a node shared
+   by two parents with different missing sets, a dead branch and a free feature all conform. *)
+Example small_ex_d4_conforms : d4_conform small_ex_d4 4 = true.
+Proof. exact small_ex_d4_conform. Qed.
+Example mixed_d4_conforms : d4_conform mixed_d4 5 = true.
+Proof. exact mixed_d4_conform. Qed.
+Example tautology_conforms : d4_conform tautology_file 3 = true.
+Proof. exact tautology_conform. Qed.
+Example shared_d4_conforms : d4_conform shared_d4 5 = true /\
+  exists C, load_d4 shared_d4 5 = Some (C, 5%nat) /\ check_wf C 5 = true /\ (0 < length C)%nat.
+Proof. exact shared_d4_conform. Qed.
